@@ -64,6 +64,9 @@ extern size_t g_al_bs;           /* block size the allocator is configured for *
 #if VERIF_IS_NATIVE
 #define BE_DELIVER(buf, len, octet) do { if ((len) > 0) memset((buf), 0xA5, (len)); \
   if (g_k < (len)) ((unsigned char *)(buf))[g_k] = (octet); } while (0)
+#elif defined(BE_SIMPLE_DELIVER)
+#define BE_DELIVER(buf, len, octet) do { \
+  if (g_k < (len)) ((unsigned char *)(buf))[g_k] = (octet); } while (0)
 #else
 /* arbitrary content everywhere; the octet at the ghost index is named */
 #define BE_DELIVER(buf, len, octet) do { if ((len) > 0) __CPROVER_havoc_slice((buf), (len)); \
